@@ -86,3 +86,85 @@ pub fn scratch_dir(name: &str) -> String {
 	let _ = std::fs::create_dir_all(&dir);
 	dir
 }
+
+/// How the child's standard output is connected.
+pub enum Sink {
+	/// A pipe that is read to the end.
+	Pipe,
+	/// A pipe whose read end is closed before the child starts writing.
+	ClosedPipe,
+	/// `/dev/full` (every write fails with ENOSPC).
+	DevFull,
+}
+
+/// Runs `bin args…` with standard input taken from `stdin_file` (positioned
+/// wherever the caller left it) or from nothing, and standard output connected
+/// to `sink`.
+pub fn run_io(bin: &str, args: &[String], stdin_file: Option<std::fs::File>, sink: Sink, timeout: Duration) -> Run {
+	let mut cmd = Command::new(bin);
+	cmd.args(args).stderr(Stdio::piped());
+	match stdin_file {
+		Some(f) => {
+			cmd.stdin(Stdio::from(f));
+		}
+		None => {
+			cmd.stdin(Stdio::null());
+		}
+	}
+	match sink {
+		Sink::Pipe | Sink::ClosedPipe => {
+			cmd.stdout(Stdio::piped());
+		}
+		Sink::DevFull => match std::fs::OpenOptions::new().write(true).open("/dev/full") {
+			Ok(f) => {
+				cmd.stdout(Stdio::from(f));
+			}
+			Err(e) => return Run { status: Status::SpawnError(format!("/dev/full: {e}")), stdout: vec![], stderr: vec![] },
+		},
+	}
+	let mut child = match cmd.spawn() {
+		Ok(c) => c,
+		Err(e) => return Run { status: Status::SpawnError(e.to_string()), stdout: vec![], stderr: vec![] },
+	};
+	let so = child.stdout.take();
+	let t_out = match (so, &sink) {
+		(Some(mut so), Sink::Pipe) => Some(std::thread::spawn(move || {
+			let mut v = vec![];
+			let _ = so.read_to_end(&mut v);
+			v
+		})),
+		(Some(so), _) => {
+			drop(so); // the consumer goes away
+			None
+		}
+		_ => None,
+	};
+	let mut se = child.stderr.take().unwrap();
+	let t_err = std::thread::spawn(move || {
+		let mut v = vec![];
+		let _ = se.read_to_end(&mut v);
+		v
+	});
+	let start = Instant::now();
+	let status = loop {
+		match child.try_wait() {
+			Ok(Some(st)) => {
+				break match (st.code(), st.signal()) {
+					(Some(c), _) => Status::Exit(c),
+					(None, Some(s)) => Status::Signal(s),
+					_ => Status::Exit(-1),
+				}
+			}
+			Ok(None) => {
+				if start.elapsed() > timeout {
+					let _ = child.kill();
+					let _ = child.wait();
+					break Status::Timeout;
+				}
+				std::thread::sleep(Duration::from_millis(1));
+			}
+			Err(e) => break Status::SpawnError(e.to_string()),
+		}
+	};
+	Run { status, stdout: t_out.map(|t| t.join().unwrap_or_default()).unwrap_or_default(), stderr: t_err.join().unwrap_or_default() }
+}
